@@ -222,6 +222,11 @@ class GapFiller:
         """Update gap filling model with switches and indicator objective."""
         constraints = []
         big_m = max(max(abs(b) for b in r.bounds) for r in self.model.reactions)
+        if big_m == float("inf"):
+            raise ValueError(
+                "Gap filling needs finite bounds on all reactions "
+                "(the largest bound is used as big-M)."
+            )
         prob = self.model.problem
         for rxn in self.model.reactions:
             if not hasattr(rxn, "gapfilling_type"):
